@@ -157,8 +157,11 @@ def cases(ctx: Ctx):
         yield g.sealed_case('wrong-aes-key', msg[1], aes_key=OTHER_AES_KEY, via_loop=True)
     # ---- known / unknown urn x right / wrong device key
     js_ok = payload_json(1, 0)
-    for urn in ('b', 'c', 'a', 'zz', 'B', 'b\t', '', 'bk', 'bkx'):
-        for key in ('kb', 'kc', 'ka', 'kx', 'KB', 'kb\x00', '', 'x', 'k', 'b', 'kbkb', 'kbx'):
+    # (names and keys outside ASCII too: a key that differs from the right one only in characters some normalisation drops or
+    # folds -- an accent, an invisible separator, a full-width twin -- is a wrong key)
+    for urn in ('b', 'c', 'a', 'zz', 'B', 'b\t', '', 'bk', 'bkx', 'z\u00fc', 'zu', 'z', 'b\u00fc'):
+        for key in ('kb', 'kc', 'ka', 'kx', 'KB', 'kb\x00', '', 'x', 'k', 'b', 'kbkb', 'kbx',
+                    'k\u00df\u20ac', 'k\u00df', 'kss\u20ac', 'kb\u00e9', '\u2063kb', '\uff4b\uff42', 'k\u0062\u0301'):
             for ty, fl in ((0, 1), (1, 1), (2, 0)):
                 pt = '%s %s %d %d %s' % (urn, key, ty, fl, js_ok if ty != 1 else '{}')
                 yield g.sealed_case('urn-key-matrix', pt, addr=rng.choice(['6.6.6.6', '10.0.0.2']), via_loop=(ty == 2))
